@@ -168,9 +168,9 @@ class EM:
         if k == "prefix":
             return "prefix = %s" % frag(rust_str(self.s))
         if k == "pety":
-            return "parse_err_ty = %s" % self.s
+            return "parse_err_ty = %s" % frag(self.s, "ty")          # (inside a macro_rules! expansion: handed in by the caller as a `ty` fragment)
         if k == "pefn":
-            return "parse_err_fn = %s" % self.s
+            return "parse_err_fn = %s" % frag(self.s, "path")        # (.. and the function as a `path` fragment: the caller's hygiene context)
         if k == "cis":
             return "const_into_str"
         raise ValueError(k)
@@ -355,8 +355,9 @@ def generics_decl(it: Item, bounds: str = "") -> Tuple[str, str, str]:
         params.append("const N%d: usize%s" % (i, (" = " + it.cparam_default) if it.cparam_default else ""))
         uses.append("N%d" % i)
     if not params:
-        return "", "", ""
-    return "<%s>" % ", ".join(params), (" where %s" % ", ".join(wh) if wh else ""), "<%s>" % ", ".join(uses)
+        # `enum E<> { .. }`: an EMPTY parameter list is legal Rust (what `enum $name<$($p),*>` expands to for a parameterless enum): not generic
+        return ("<>" if getattr(it, "empty_generics", False) else ""), "", ""
+    return "<%s%s>" % (", ".join(params), "," if getattr(it, "empty_generics", False) else ""), (" where %s" % ", ".join(wh) if wh else ""), "<%s>" % ", ".join(uses)
 
 
 def render_item(it: Item, derives: List[str], bounds: str = "", extra_attrs: List[str] = ()) -> str:
